@@ -54,7 +54,7 @@ pub trait Prop: Sync + Send {
     /// wall-clock cap of one run in seconds (first attempt; the single retry gets 4x)
     fn run_cap_secs(&self, tier: Tier) -> u64 {
         if tier == Tier::Quick {
-            30
+            60
         } else {
             120
         }
@@ -461,6 +461,7 @@ pub fn run_check(prop: &dyn Prop, env: &CheckEnv) -> i32 {
         runs_done: AtomicU64::new(0),
         events_seen: AtomicU64::new(0),
         run_ns: AtomicU64::new(0),
+        max_run_ms: AtomicU64::new(0),
         abort: std::sync::atomic::AtomicBool::new(false),
         retry_mode: std::sync::atomic::AtomicBool::new(false),
     };
@@ -672,6 +673,8 @@ pub fn run_check(prop: &dyn Prop, env: &CheckEnv) -> i32 {
                 "not_under_seam": "LevelDB's own file I/O, read_dir, Path::exists, stdout/stderr"
             },
             "known_findings_met": known_met,
+            "slowest_run_ms": ctx.max_run_ms.load(Ordering::Relaxed),
+            "run_cap_s": prop.run_cap_secs(env.tier),
             "sut_avg_ms": if runs > 0 { ctx.run_ns.load(Ordering::Relaxed) as f64 / 1e6 / runs as f64 } else { 0.0 },
         },
         "assumptions": prop.assumptions(),
@@ -706,6 +709,7 @@ pub fn replay(prop: &dyn Prop, sut: &Path, scratch: &Path, scn: &Scenario) -> i3
         runs_done: AtomicU64::new(0),
         events_seen: AtomicU64::new(0),
         run_ns: AtomicU64::new(0),
+        max_run_ms: AtomicU64::new(0),
         abort: std::sync::atomic::AtomicBool::new(false),
         retry_mode: std::sync::atomic::AtomicBool::new(false),
     };
